@@ -23,4 +23,7 @@ func init() {
 	register("C01", rulesC01,
 		"Static wrapper-contract check. The executor's composition loop, the leaf around the user function, BaseExecutor.Apply/PostExecute, the verdict helpers (WithDone/WithFailure), the self-binding of every ToExecutor and the eight entry points are each summarised by path-sensitive abstract evaluation of their go/ssa bodies (every feasible case of the predicate abstraction; calls to user code and interface slots are opaque events) and each summary is compared with the contract that makes a policy list behave as the nesting P1(P2(...Pn(fn))): policies applied innermost-first, the composed function invoked exactly once with the outer execution, a rejecting PreExecute returns before innerFn, PostExecute dispatches exactly one of OnFailure/OnSuccess through the self reference, and the caller receives exactly the outermost result.",
 		"each policy's own documented behaviour beyond C02–C11; histories against stateful policies; anything about concurrent executions")
+	register("C02", rulesC02,
+		"Static check of the retry executor. (1) The retry closure is summarised by path-sensitive abstract evaluation with the loop unrolled to a second and third attempt; a further attempt must be licensed, in order, by PostExecute of the previous result with Done=false, RecordResult=nil, an interruptible wait and InitializeRetry=nil, and every return must be the handled result, the attempt's own result after exceeded retries, or the cancel result of the test just taken. (2) OnFailure is evaluated as a decision table over the predicate abstraction of its conditions (integer comparisons in linear normal form, so off-by-one is decided for every maxRetries at once) and compared with the specification: counter +1, exceeded ⇔ (maxRetries≠-1 ∧ failed+1>maxRetries) ∨ (maxDuration≠0 ∧ elapsed>maxDuration), Done ⇔ abort ∨ exceeded ∨ ¬allowsRetries, ExceededError{last result,last error} iff exceeded ∧ ¬ReturnLastFailure ∧ ¬abort. (3) Ownership: the budget fields are written only by the executor's own methods, ToExecutor returns a fresh self-bound executor, and configuration fields are stored only by builder methods.",
+		"wall-clock meaning of the max duration; interleavings of executions (C14); the inner policies' behaviour")
 }
